@@ -5,6 +5,7 @@ package main
 import (
 	"fmt"
 	"go/token"
+	"sort"
 	"strings"
 
 	"golang.org/x/tools/go/ssa"
@@ -58,6 +59,7 @@ func checkC08(c *Ctx) {
 	c.NotDec = append(c.NotDec, "unforgeability of the signatures and the PRF (cryptographic)", "that both sides abort under every single-field rewrite (follows from the transcript rule plus Finished, given the PRF)", "certificate path validation itself (C10)")
 	c08Chain(c)
 	c08Roots(c)
+	c08KeyUsage(c)
 	c08SKE(c)
 	c08Finished(c)
 	c08ClientAuth(c)
@@ -416,29 +418,22 @@ func c08ClientAuth(c *Ctx) {
 			continue
 		}
 		spec, _ := defaultResultSpec(f)
-		// an empty certificate list under a requiring policy is rejected
-		reqAny, _ := pkgConst(c, "gmtls", "RequireAnyClientCert")
-		reqVer, _ := pkgConst(c, "gmtls", "RequireAndVerifyClientCert")
-		found := map[int64]bool{}
-		for _, ifi := range ifsOf(f) {
-			bo, ok := ifi.Cond.(*ssa.BinOp)
-			if !ok || bo.Op != token.EQL {
-				continue
-			}
-			k, isK := constInt(bo.Y)
-			if !isK || (k != reqAny && k != reqVer) {
-				continue
-			}
-			if ld, ok := bo.X.(*ssa.UnOp); ok {
-				if fa, ok := ld.X.(*ssa.FieldAddr); ok && fieldName(fa.X.Type(), fa.Field) == "ClientAuth" {
-					e := edge{ifi.Block(), ifi.Block().Succs[0]}
-					if r, _ := canReachSuccess(ifi.Block().Succs[0], &e, successExits(f, spec), nil); !r {
-						found[k] = true
-					}
-				}
-			}
+		// an empty certificate list under a requiring policy is rejected: evaluated for each value of the policy
+		emptyEdges := emptyCertListEdges(f)
+		if len(emptyEdges) != 1 {
+			c.Undecided(rule, fname(f), "the test for an empty client certificate list", fmt.Sprintf("%d tests `len(certMsg.certificates) == 0` found", len(emptyEdges)), f.Pos())
+			continue
 		}
-		c.Check(found[reqAny] && found[reqVer], rule, fname(f), "an empty client certificate list is rejected under RequireAnyClientCert / RequireAndVerifyClientCert", "", "the requiring policies do not reject a client that sends no certificate", f.Pos())
+		for _, pol := range []string{"RequireAnyClientCert", "RequireAndVerifyClientCert"} {
+			k, okc := pkgConst(c, "gmtls", pol)
+			if !okc {
+				c.Missing(rule, "gmtls."+pol, "constant", "not found")
+				continue
+			}
+			c.Evals++
+			r, _ := canReachSuccess(emptyEdges[0].to, &emptyEdges[0], successExits(f, spec), fieldValueCut(f, "ClientAuth", k))
+			c.Check(!r, rule, fname(f), "an empty client certificate list is rejected under "+pol, "", "with ClientAuth == "+pol+" a client that sends no certificate can still reach the successful end of the handshake", f.Pos())
+		}
 		// CertificateVerify: with a client certificate, the signature check cannot be bypassed
 		vs := callsNamedIn(f, "verifyHandshakeSignature")
 		if len(vs) != 1 {
@@ -713,5 +708,265 @@ func c08Roots(c *Ctx) {
 	}
 	if n < 4 {
 		c.Undecided(rule, "gmtls", "AddCert call sites", fmt.Sprintf("only %d found", n), token.NoPos)
+	}
+}
+
+// emptyCertListEdges: the edges taken when the received client Certificate message carries no certificate
+// (`len(certMsg.certificates) == 0` and equivalent comparisons)
+func emptyCertListEdges(f *ssa.Function) []edge {
+	var out []edge
+	for _, ifi := range ifsOf(f) {
+		bo, ok := ifi.Cond.(*ssa.BinOp)
+		if !ok {
+			continue
+		}
+		isCerts := func(v ssa.Value) bool {
+			return isLenOf(v, func(x ssa.Value) bool {
+				ld, ok := x.(*ssa.UnOp)
+				if !ok {
+					return false
+				}
+				fa, ok := ld.X.(*ssa.FieldAddr)
+				if !ok || fieldName(fa.X.Type(), fa.Field) != "certificates" {
+					return false
+				}
+				return strings.HasSuffix(fa.X.Type().String(), "certificateMsg")
+			})
+		}
+		if !isCerts(bo.X) {
+			continue
+		}
+		k, isK := constInt(bo.Y)
+		if !isK {
+			continue
+		}
+		b := ifi.Block()
+		switch {
+		case bo.Op == token.EQL && k == 0, bo.Op == token.LSS && k == 1, bo.Op == token.LEQ && k == 0:
+			out = append(out, edge{b, b.Succs[0]})
+		case bo.Op == token.NEQ && k == 0, bo.Op == token.GTR && k == 0, bo.Op == token.GEQ && k == 1:
+			out = append(out, edge{b, b.Succs[1]})
+		}
+	}
+	return out
+}
+
+// fieldValueCut: the CFG edges that cannot be taken when the (configuration) field named `field` has the value k:
+// every branch on a comparison between a load of that field and a constant is resolved.
+func fieldValueCut(f *ssa.Function, field string, k int64) map[edge]bool {
+	cut := map[edge]bool{}
+	isField := func(v ssa.Value) bool {
+		ld, ok := v.(*ssa.UnOp)
+		if !ok || ld.Op != token.MUL {
+			return false
+		}
+		fa, ok := ld.X.(*ssa.FieldAddr)
+		return ok && fieldName(fa.X.Type(), fa.Field) == field
+	}
+	for _, ifi := range ifsOf(f) {
+		bo, ok := ifi.Cond.(*ssa.BinOp)
+		if !ok {
+			continue
+		}
+		var kc int64
+		op := bo.Op
+		if c2, isK := constInt(bo.Y); isK && isField(bo.X) {
+			kc = c2
+		} else if c1, isK := constInt(bo.X); isK && isField(bo.Y) {
+			kc = c1
+			switch op { // mirror: c op field  ==  field op' c
+			case token.LSS:
+				op = token.GTR
+			case token.LEQ:
+				op = token.GEQ
+			case token.GTR:
+				op = token.LSS
+			case token.GEQ:
+				op = token.LEQ
+			}
+		} else {
+			continue
+		}
+		var val bool
+		switch op {
+		case token.EQL:
+			val = k == kc
+		case token.NEQ:
+			val = k != kc
+		case token.LSS:
+			val = k < kc
+		case token.LEQ:
+			val = k <= kc
+		case token.GTR:
+			val = k > kc
+		case token.GEQ:
+			val = k >= kc
+		default:
+			continue
+		}
+		b := ifi.Block()
+		if val {
+			cut[edge{b, b.Succs[1]}] = true
+		} else {
+			cut[edge{b, b.Succs[0]}] = true
+		}
+	}
+	return cut
+}
+
+// c08KeyUsage: the GMSSL client accepts a certificate in the signing slot only if its key usage allows signing and
+// in the encryption slot only if it allows encipherment / key agreement. The branch conditions are evaluated for
+// all 512 KeyUsage values (nothing is matched syntactically), so an equivalent rewrite passes and a precedence slip fails.
+func c08KeyUsage(c *Ctx) {
+	rule := "G-C08-keyusage"
+	f := c.Fn("gmtls", "(*clientHandshakeStateGM).doFullHandshake")
+	if f == nil {
+		c.Missing(rule, "gmtls.(*clientHandshakeStateGM).doFullHandshake", "method", "not found")
+		return
+	}
+	spec, _ := defaultResultSpec(f)
+	ex := successExits(f, spec)
+	ku := func(name string) int64 { k, _ := pkgConst(c, "x509", name); return k }
+	sign := ku("KeyUsageDigitalSignature") | ku("KeyUsageContentCommitment")
+	enc := ku("KeyUsageDataEncipherment") | ku("KeyUsageKeyEncipherment") | ku("KeyUsageKeyAgreement")
+	if sign == 0 || enc == 0 {
+		c.Missing(rule, "x509.KeyUsage*", "constants", "not found")
+		return
+	}
+	// eval: value of an SSA expression that depends only on a load of .KeyUsage and constants
+	var eval func(v ssa.Value, kuv int64, depth int) (int64, bool, bool) // value, usesKU, ok
+	eval = func(v ssa.Value, kuv int64, depth int) (int64, bool, bool) {
+		if depth > 12 {
+			return 0, false, false
+		}
+		if k, isK := constInt(v); isK {
+			return k, false, true
+		}
+		switch x := v.(type) {
+		case *ssa.UnOp:
+			if x.Op == token.MUL {
+				if fa, ok := x.X.(*ssa.FieldAddr); ok && fieldName(fa.X.Type(), fa.Field) == "KeyUsage" {
+					return kuv, true, true
+				}
+			}
+		case *ssa.Convert:
+			return eval(x.X, kuv, depth+1)
+		case *ssa.ChangeType:
+			return eval(x.X, kuv, depth+1)
+		case *ssa.BinOp:
+			a, ua, ok1 := eval(x.X, kuv, depth+1)
+			b, ub, ok2 := eval(x.Y, kuv, depth+1)
+			if !ok1 || !ok2 {
+				return 0, false, false
+			}
+			bo := func(t bool) int64 {
+				if t {
+					return 1
+				}
+				return 0
+			}
+			u := ua || ub
+			switch x.Op {
+			case token.AND:
+				return a & b, u, true
+			case token.OR:
+				return a | b, u, true
+			case token.XOR:
+				return a ^ b, u, true
+			case token.AND_NOT:
+				return a &^ b, u, true
+			case token.EQL:
+				return bo(a == b), u, true
+			case token.NEQ:
+				return bo(a != b), u, true
+			case token.GTR:
+				return bo(a > b), u, true
+			case token.LSS:
+				return bo(a < b), u, true
+			case token.GEQ:
+				return bo(a >= b), u, true
+			case token.LEQ:
+				return bo(a <= b), u, true
+			}
+		}
+		return 0, false, false
+	}
+	kuIf := map[*ssa.BasicBlock]*ssa.If{}
+	for _, ifi := range ifsOf(f) {
+		if _, uses, ok := eval(ifi.Cond, 0, 0); ok && uses {
+			kuIf[ifi.Block()] = ifi
+		}
+	}
+	// roots: key-usage tests not entered from another key-usage test
+	entered := map[*ssa.BasicBlock]bool{}
+	for b := range kuIf {
+		for _, s := range b.Succs {
+			if kuIf[s] != nil {
+				entered[s] = true
+			}
+		}
+	}
+	slotOf := func(b *ssa.BasicBlock) int64 {
+		for d := b.Idom(); d != nil; d = d.Idom() {
+			ifi, ok := d.Instrs[len(d.Instrs)-1].(*ssa.If)
+			if !ok {
+				continue
+			}
+			bo, ok := ifi.Cond.(*ssa.BinOp)
+			if !ok || bo.Op != token.EQL {
+				continue
+			}
+			if k, isK := constInt(bo.Y); isK && (d.Succs[0] == b || d.Succs[0].Dominates(b)) && len(d.Succs[0].Preds) == 1 {
+				return k
+			}
+		}
+		return -1
+	}
+	done := map[int64]bool{}
+	var roots []*ssa.BasicBlock
+	for b := range kuIf {
+		if !entered[b] {
+			roots = append(roots, b)
+		}
+	}
+	sort.Slice(roots, func(i, j int) bool { return roots[i].Index < roots[j].Index })
+	for _, root := range roots {
+		slot := slotOf(root)
+		var need int64
+		var what string
+		switch slot {
+		case 0:
+			need, what = sign, "the signing slot (certificate 0) rejects a certificate whose key usage has neither digitalSignature nor contentCommitment"
+		case 1:
+			need, what = enc, "the encryption slot (certificate 1) rejects a certificate whose key usage has none of dataEncipherment, keyEncipherment, keyAgreement"
+		default:
+			continue
+		}
+		done[slot] = true
+		c.Evals++
+		bad := int64(-1)
+		for v := int64(0); v < 512 && bad < 0; v++ {
+			if v&need != 0 {
+				continue
+			}
+			b := root
+			for steps := 0; kuIf[b] != nil && steps < 32; steps++ {
+				val, _, _ := eval(kuIf[b].Cond, v, 0)
+				if val != 0 {
+					b = b.Succs[0]
+				} else {
+					b = b.Succs[1]
+				}
+			}
+			if r, _ := canReachSuccess(b, nil, ex, nil); r {
+				bad = v
+			}
+		}
+		c.Check(bad < 0, rule, fname(f), what, "", fmt.Sprintf("a certificate with KeyUsage %#x passes the test: a server holding only the other key of the pair (e.g. the escrowed encryption key) can take this role", bad), kuIf[root].Cond.Pos())
+	}
+	for _, slot := range []int64{0, 1} {
+		if !done[slot] {
+			c.Violated(rule, fname(f), fmt.Sprintf("key usage of certificate %d is tested", slot), "no branch on the certificate's KeyUsage was found for this slot", f.Pos())
+		}
 	}
 }
